@@ -107,6 +107,15 @@ def prop(case, rec):
 def run(ctx):
     ctx.search('graphs', cases, prop, ctx.pick(24000, 500000))
 
+    def small(sc, rec):
+        # this property's domain: every dependency is wanted, nothing is borrowed or skipped
+        if sc['options'].get('noDeps') or sc['borrowers'] or sc['searchers']:
+            return
+        sc['options']['noDeps'] = False
+        sc['options']['writeMibs'] = True
+        prop(sc, rec)
+    orch.small_sweep(ctx, small, quick_stride=7)
+
 
 def replay(ctx, data):
     from vlib.core import Recorder
